@@ -1,5 +1,5 @@
 (* Executable correspondence / specification checks for C04. *)
-From Goat Require Import Base.Bytes Model.Base64 Model.Meta Model.SrvStream.
+From Goat Require Import Base.Bytes Model.Base64 Model.Meta Model.SrvStream Model.MetaSys.
 Open Scope Z_scope.
 
 Inductive c04case :=
@@ -16,7 +16,18 @@ Inductive c04case :=
    observed envelopes as (kind, header tokens, trailer tokens) *)
 | CStream (ops : list (sop Z Z Z)) (obs_res : list Z) (obs_envs : list (Z * list Z * list Z))
 (* unary collector *)
-| CUnary (ops : list (uop Z)) (obs_res : list bool) (obs_h obs_t : list Z).
+| CUnary (ops : list (uop Z)) (obs_res : list bool) (obs_h obs_t : list Z)
+(* whole RPC, request direction: the metadata the caller attached (keys as given),
+   the key order on the wire, the injected timeout value (None = no deadline), the
+   request header list seen on the wire, the handler's incoming metadata *)
+| CSysReq (sent : mdmap) (order : list bytes) (tmo : option bytes) (wire : list kv) (got : mdmap)
+(* whole RPC, response direction (which = 0 headers, 1 trailers): the maps the
+   handler's accepted Set/Send calls passed (in call order), the key order on the
+   wire, the list carried by the first envelope the caller received (headers) /
+   the trailer envelope, whether any later envelope carried header metadata, and
+   what the caller got from Header() / Trailer() (unary: stats InHeader / the
+   decoded wire list) *)
+| CSysResp (which : Z) (accepted : list mdmap) (order : list bytes) (wire : list kv) (later : bool) (got : option mdmap).
 
 Fixpoint reorder (order : list bytes) (m : mdmap) : mdmap :=
   match order with
@@ -94,6 +105,22 @@ Definition spec_stream (ops : list (sop Z Z Z)) (res : list Z) (envs : list (Z *
       && forallb (fun e' => match snd (fst e') with [] => true | _ => false end) rest
   end.
 
+(* grpc's metadata.FromOutgoingContext lower-cases the keys before ToKeyValue sees them *)
+Definition lower_md (m : mdmap) : mdmap := map (fun e => (lower (fst e), snd e)) m.
+
+(* the property on observations alone: same keys (lower-cased), same values in
+   per-key order, byte-exact; nothing else - whatever the order of the entries *)
+Definition spec_same (sent got : mdmap) : bool :=
+  forallb (fun e => match snd e with
+                    | [] => true
+                    | _ => vals_eqb (match lookup (lower (fst e)) got with Some v => v | None => [] end)
+                                    (flat_map (fun e' => if bytes_eqb (lower (fst e')) (lower (fst e)) then snd e' else []) sent)
+                    end) sent
+  && forallb (fun e => match snd e with
+                       | [] => true
+                       | _ => existsb (fun e' => bytes_eqb (lower (fst e')) (fst e)) sent
+                       end) got.
+
 Definition check (c : c04case) : list nat :=
   match c with
   | CCodec mds order obs_kvs obs_md =>
@@ -122,6 +149,26 @@ Definition check (c : c04case) : list nat :=
                              (combine ops obs_res) in
        let acc_t := flat_map (fun p => match fst p with USetTrailer md => [md] | _ => [] end) (combine ops obs_res) in
        if list_eqb Z.eqb acc_h obs_h && list_eqb Z.eqb acc_t obs_t then [] else [2%nat])
+  | CSysReq sent order tmo wire got =>
+      let om := reorder order (lower_md sent) in
+      (if list_eqb kv_eqb (request_kvs om tmo) wire then [] else [1%nat]) ++
+      (if opt_md_eqb (handler_md (request_kvs om tmo)) (Some got) then [] else [1%nat]) ++
+      (if spec_same sent (drop_key injected_lkey got) then [] else [2%nat]) ++
+      (* the injected entry: present iff there is a deadline *)
+      (match tmo, lookup injected_lkey got with
+       | Some v, Some [v'] => if bytes_eqb v v' then [] else [2%nat]
+       | None, None => []
+       | _, _ => [2%nat]
+       end)
+  | CSysResp which accepted order wire later got =>
+      let j := reorder order (join accepted) in
+      (if list_eqb kv_eqb (to_kv j) wire then [] else [1%nat]) ++
+      (if opt_md_eqb (to_md wire) got then [] else [1%nat]) ++
+      (match got with
+       | Some g => if spec_same (join accepted) g then [] else [2%nat]
+       | None => [2%nat]
+       end) ++
+      (if later then [3%nat] else [])
   end.
 
 Fixpoint find_bad_from (i : nat) (cs : list c04case) : list (nat * list nat) :=
